@@ -17,7 +17,7 @@ res() { jq -n --arg name "$NAME" --arg head "$(git -C /repo rev-parse --short HE
 if ! git apply --check $SRC/patch.diff 2>/tmp/seedval-$NAME.err; then res no - - "$(head -3 /tmp/seedval-$NAME.err)" - -; exit 1; fi
 git apply $SRC/patch.diff
 if ! go build ./... 2>/tmp/seedval-$NAME.err; then res yes no - "$(head -5 /tmp/seedval-$NAME.err)" - -; exit 1; fi
-ALLOWED='TestCustomLoggingConfiguration|Test_RouterHandling|Test_HeaderChecks|Test_Gzip|TestGzip|TestCompress'
+ALLOWED='TestCustomLoggingConfiguration|Test_RouterHandling|Test_HeaderChecks|Test_RedirectDebugHandler|Test_Gzip|TestGzip|TestCompress'
 go test -vet=off -count=1 -timeout 25m ./... > /tmp/seedval-$NAME.suite 2>&1
 FAILS=$(grep -E '^--- FAIL' /tmp/seedval-$NAME.suite | grep -Ev "$ALLOWED" | awk '{print $3}' | sort -u | tr '\n' ' ')
 if [ -n "$FAILS" ]; then
